@@ -45,6 +45,9 @@ func scenarios(tier string) []engine.Scenario {
 		if class != "" {
 			kn = append(kn, knownScenario(ring.Standard, 4, ch, class), knownScenario(ring.ConjugateInvariant, 4, ch, class))
 		}
+		if ch.Name == "q61x6-p61x2" {
+			kn = append(kn, knownScenario(ring.ConjugateInvariant, 5, ch, sigCIOddLogN61))
+		}
 	}
 	scs := append(auto, ks...)
 	scs = append(scs, rd...)
@@ -63,7 +66,7 @@ func expect(tier string) []string {
 		"op=ApplyEvaluationKey/small->large", "op=ApplyEvaluationKey/large->small",
 		"op=DomainSwitcher.RealToComplex", "op=DomainSwitcher.ComplexToReal",
 		"op=Expand==rlk", "op=Expand==gk", "op=Expand==evk"}
-	for _, k := range []string{sigLevelPMinus1, sigNoPNoBase2, sigDigitCount, "none(control)"} {
+	for _, k := range []string{sigLevelPMinus1, sigNoPNoBase2, sigDigitCount, sigCIOddLogN61, "none(control)"} {
 		e = append(e, "known-class="+k)
 	}
 	for _, o := range ksOps {
